@@ -518,23 +518,28 @@ def specInv (o : Obs) : Bool :=
   && o.finds.all (fun p => findOk (tiersOf o) p.1 p.2)
 
 /-- Replay the structural announcements on the list of component ids: every announcement must be
-applicable (announce only what happens) and `ComponentsChanged` must directly follow an addition or
-a removal. `armed` = the previous message was an add / remove still waiting for its
-`ComponentsChanged`. -/
-def replay : List Msg → Bool → List Cid → Option (List Cid)
-  | [], armed, cur => if armed then none else some cur
-  | .add c :: ms, armed, cur =>
-    if armed || cur.contains c then none else replay ms true (cur ++ [c])
-  | .remove c :: ms, armed, cur =>
-    if armed || !cur.contains c then none else replay ms true (cur.erase c)
-  | .changed :: ms, armed, cur => if armed then replay ms false cur else none
-  | .replaced o n :: ms, armed, cur =>
-    if armed || !cur.contains o || cur.contains n then none
-    else replay ms false (cur.map fun x => if x == o then n else x)
-  | .reorder cs :: ms, armed, cur =>
-    if armed || cs == cur || !(cs.all cur.contains && cur.all cs.contains && cs.length == cur.length)
-    then none else replay ms false cs
-  | _ :: ms, armed, cur => if armed then none else replay ms false cur
+applicable (announce only what happens): an added id is new and goes to the end, a removed id is
+present, `ComponentReplaced(o, n)` puts the new id `n` at the place of the present id `o`, a
+reorder is a genuine permutation different from the current order; `DataAddComponent` /
+`DataRemoveComponent` are each directly followed by their `ComponentsChanged`, which never occurs
+on its own. Other messages do not concern the identifier list. -/
+def replay : List Msg → List Cid → Option (List Cid)
+  | [], cur => some cur
+  | .add c :: .changed :: ms, cur => if cur.contains c then none else replay ms (cur ++ [c])
+  | .remove c :: .changed :: ms, cur => if cur.contains c then replay ms (cur.erase c) else none
+  | .replaced o n :: ms, cur =>
+    if !cur.contains o || cur.contains n then none
+    else replay ms (cur.map fun x => if x == o then n else x)
+  | .reorder cs :: ms, cur =>
+    if cs == cur || !(cs.all cur.contains && cur.all cs.contains && cs.length == cur.length)
+    then none else replay ms cs
+  | .add _ :: _, _ => none
+  | .remove _ :: _, _ => none
+  | .changed :: _, _ => none
+  | .rename _ :: ms, cur => replay ms cur
+  | .update :: ms, cur => replay ms cur
+  | .numerical _ :: ms, cur => replay ms cur
+  | .ext :: ms, cur => replay ms cur
 
 def lookupComp (o : Obs) (c : Cid) : Option OComp := o.comps.find? (·.cid == c)
 
@@ -581,7 +586,7 @@ def specStep (pre : Obs) (op : Op) (post : Obs) (msgs : List Msg) (err : Option 
     (post.hub == pre.hub || op.isHubOp)
     && (hub || msgs.isEmpty)
     -- identifiers and their order
-    && (if hub then replay msgs false (ocids pre) == some (ocids post) else true)
+    && (if hub then replay msgs (ocids pre) == some (ocids post) else true)
     && (match op with
         | .reorder cs => (ocids post == cs) || (ocids post == ocids pre)
         | .updateId old new =>
@@ -634,6 +639,7 @@ inductive Construct where
   | renameForeign        -- label change of an id that is not a component of the dataset
   | linkedInCollection   -- `_set_externally_derivable_components` by hand while the link manager owns it
   | scalarShape          -- 0-d arrays
+  | unknownId            -- an argument that is not an existing ComponentID object (ids are `< next`)
   | coordsDims           -- coordinates object whose number of dimensions does not fit
   deriving DecidableEq, Repr, Inhabited
 
@@ -647,12 +653,25 @@ def Construct.name : Construct → String
   | .renameForeign => "rename-foreign"
   | .linkedInCollection => "linked-in-collection"
   | .scalarShape => "scalar-shape"
+  | .unknownId => "unknown-id"
   | .coordsDims => "coords-dims"
 
 def isCoordCid (s : State) (c : Cid) : Bool :=
   s.pix.contains c || s.world.contains c || s.comps.any (fun x => x.cid == c && x.kind.isCoord)
 
-def classify (s : State) : Op → Construct
+/-- Every identifier a call mentions. -/
+def Op.ids : Op → List Cid
+  | .addArrayAt c _ _ => [c]
+  | .addDerived _ _ deps => deps
+  | .remove c => [c]
+  | .reorder cs => cs
+  | .updateId o n => [o, n]
+  | .updateComponents m => m.map (·.1)
+  | .rename c _ => [c]
+  | .setLinked cs => cs
+  | _ => []
+
+def classifyArgs (s : State) : Op → Construct
   | .addArray _ shape _ => if shape.isEmpty then .scalarShape else .ok
   | .addArrayAt c shape _ =>
     if shape.isEmpty then .scalarShape
@@ -679,5 +698,8 @@ def classify (s : State) : Op → Construct
   | .register => .ok
   | .setLinked _ => if s.inDc then .linkedInCollection else .ok
   | .nop => .ok
+
+def classify (s : State) (op : Op) : Construct :=
+  if op.ids.all (· < s.next) then classifyArgs s op else .unknownId
 
 end GlueVerif.DataStruct
